@@ -313,31 +313,124 @@ func ReadRequest(client *http.Client, proxyHost, backendID, requestID string, ca
 }
 
 func newBufferedReadSeeker(r io.Reader, bufSize int) *bufferedReadSeeker {
-	return &bufferedReadSeeker{
+	b := &bufferedReadSeeker{
 		r:         r,
 		buf:       make([]byte, bufSize),
 		writeHead: 0,
 		readHead:  0,
 	}
+	b.cond = sync.NewCond(&b.mu)
+	return b
 }
 
+// bufferedReadSeeker wraps a reader and remembers the beginning of what was
+// read from it, so that the stream can be rewound and read again as long as
+// no more than the buffer size has been read.
+//
+// An HTTP transport may still be blocked in a call to `Read` on behalf of a
+// request that has already failed when the stream is rewound and handed to the
+// next attempt. Such an abandoned read must not take anything away from the
+// stream: whatever it eventually gets from the wrapped reader is kept for the
+// next reader, and the abandoned call itself fails.
 type bufferedReadSeeker struct {
 	r         io.Reader
 	buf       []byte
 	writeHead int
 	readHead  int
+
+	mu      sync.Mutex
+	cond    *sync.Cond
+	gen     int    // incremented by every successful Seek
+	reading bool   // a read of the wrapped reader is in flight
+	pending []byte // taken from the wrapped reader beyond the buffer by an abandoned read
+	err     error  // error returned by the wrapped reader
 }
 
+var errAbandonedRead = errors.New("read abandoned because the stream was rewound")
+
 func (b *bufferedReadSeeker) Read(p []byte) (int, error) {
-	// Read from buffer.
-	readFromBuf := copy(p, b.buf[b.readHead:b.writeHead])
-	b.readHead += readFromBuf
-	// Read from wrapped source and write to buffer.
-	readFromSource, err := b.r.Read(p[readFromBuf:])
-	written := copy(b.buf[b.writeHead:], p[readFromBuf:(readFromBuf+readFromSource)])
-	b.writeHead += written
-	b.readHead += written
-	return readFromBuf + readFromSource, err
+	b.mu.Lock()
+	gen := b.gen
+	b.mu.Unlock()
+	return b.read(gen, p)
+}
+
+// attemptReader is a view of the stream for a single attempt at sending it.
+//
+// Reads through a view fail as soon as the stream has been rewound after the
+// view was created, so whoever is still holding on to the view of a previous
+// attempt cannot take anything away from the current one.
+type attemptReader struct {
+	b   *bufferedReadSeeker
+	gen int
+}
+
+func (a *attemptReader) Read(p []byte) (int, error) {
+	return a.b.read(a.gen, p)
+}
+
+func (a *attemptReader) Close() error {
+	return nil
+}
+
+// attempt returns a view of the stream (from its current position) for one attempt at sending it.
+func (b *bufferedReadSeeker) attempt() io.ReadCloser {
+	b.mu.Lock()
+	defer b.mu.Unlock()
+	return &attemptReader{b: b, gen: b.gen}
+}
+
+// read implements Read for a reader that started reading when the stream had been rewound `gen` times.
+func (b *bufferedReadSeeker) read(gen int, p []byte) (int, error) {
+	b.mu.Lock()
+	defer b.mu.Unlock()
+	for {
+		if gen != b.gen {
+			return 0, errAbandonedRead
+		}
+		// Read from buffer.
+		if b.readHead < b.writeHead {
+			n := copy(p, b.buf[b.readHead:b.writeHead])
+			b.readHead += n
+			return n, nil
+		}
+		// Read what an abandoned read took from the wrapped source.
+		if len(b.pending) > 0 {
+			n := copy(p, b.pending)
+			b.pending = b.pending[n:]
+			return n, nil
+		}
+		if b.err != nil {
+			return 0, b.err
+		}
+		if len(p) == 0 {
+			return 0, nil
+		}
+		if b.reading {
+			// Wait for the read in flight; its result will be available to us.
+			b.cond.Wait()
+			continue
+		}
+		// Read from wrapped source and write to buffer.
+		b.reading = true
+		b.mu.Unlock()
+		n, err := b.r.Read(p)
+		b.mu.Lock()
+		b.reading = false
+		b.cond.Broadcast()
+		written := copy(b.buf[b.writeHead:], p[:n])
+		b.writeHead += written
+		if err != nil {
+			b.err = err
+		}
+		if gen == b.gen {
+			b.readHead = b.writeHead
+			return n, err
+		}
+		// The stream was rewound while we were reading: leave the data for the
+		// current reader instead of consuming it.
+		b.pending = append(b.pending, p[written:n]...)
+	}
 }
 
 func (b *bufferedReadSeeker) Seek(offset int64, whence int) (int64, error) {
@@ -347,10 +440,14 @@ func (b *bufferedReadSeeker) Seek(offset int64, whence int) (int64, error) {
 	if offset < 0 || offset >= int64(len(b.buf)) {
 		return 0, errors.New("invalid offset value")
 	}
+	b.mu.Lock()
+	defer b.mu.Unlock()
 	if b.writeHead >= len(b.buf) {
 		return 0, errors.New("cannot seek, possible buffer overflow")
 	}
+	b.gen++
 	b.readHead = int(offset)
+	b.cond.Broadcast()
 	return int64(b.readHead), nil
 }
 
@@ -365,6 +462,9 @@ func postResponseWithRetries(client *http.Client, proxyURL, backendID, requestID
 	proxyReq.Header.Set("Content-Type", "text/plain")
 	var proxyResp *http.Response
 	for retryCount := 0; retryCount <= maxWriteResponseRetryCount; retryCount++ {
+		// Every attempt gets its own view of the stream: the transport may still be
+		// reading the body on behalf of a previous attempt that has already failed.
+		proxyReq.Body = proxyReadSeeker.attempt()
 		if proxyResp, err = client.Do(proxyReq); err != nil {
 			if _, seekErr := proxyReadSeeker.Seek(0, io.SeekStart); seekErr != nil {
 				return err
